@@ -60,6 +60,16 @@ def dump (a : Allocation α) (st : Eps α) : String :=
   s!" # {a.stats.length}" ++ String.join (a.stats.map fun s => s!" | {s.1} {sc s.2.1} {sc s.2.2.1} {sc s.2.2.2}") ++
   s!" # {sc a.bbox.cx} {sc a.bbox.cy} {sc a.bbox.w} {sc a.bbox.h} # {sc st.dist} {sc st.area}"
 
+/-- upper bound of the number of cells an operation creates (driver-side guard against blow-ups when the
+    implementation under test is wrong and keeps asking for refinements). -/
+def opSize (st : Eps α) (a : Allocation α) : Op α → Nat
+  | .refine _ l => a.cells.length * 2 ^ l
+  | .uniform => (a.cells.map fun c => 2 ^ (maxDepth a.cells - c.depth)).sum
+  | .griddify =>
+    match gatherBoundaries st (a.cells.map (·.rect)) with
+    | .ok (xs, ys) => xs.length * ys.length
+    | .error _ => 0
+
 def runHist (env : Env α) : List (HOp α) → Eps α → Allocation α → List String → List String
   | [], _, _, acc => acc.reverse
   | .must t :: rest, st, a, acc => runHist env rest st a (b01 (mustBeRefined a t) :: acc)
@@ -70,6 +80,7 @@ def runHist (env : Env α) : List (HOp α) → Eps α → Allocation α → List
     let s := match a.centerList ms with | .ok (x, y) => s!"{sc x} {sc y}" | .error e => e.toStr
     runHist env rest st a (s :: acc)
   | .op o :: rest, st, a, acc =>
+    if opSize st a o > 2500 then ("skip:too-big" :: acc).reverse else
     match applyOp env st a o with
     | .error e => (e.toStr :: acc).reverse
     | .ok (a', st') => runHist env rest st' a' (dump a' st' :: acc)
